@@ -907,6 +907,39 @@ def r3_kernel_helpers(ctx):
                 got = "%s (loops %s, buffer %s)" % (repr(s_)[:80], [ends.get(v_) for v_ in ti], [str(z_) for z_ in ex2.allocs.get(s_.target.hid, [])])
         except (ValueError, KeyError, IndexError):
             pass
+    if not ok2:
+        # the same fact on the E6 summary when the result is built as a value: a nest over 0..C, 0..F, 0..H, 0..W (the input's own extents)
+        # whose element is kernels[f][c][h][w] with f, c, h, w the indices of levels 1, 0, 2, 3
+        try:
+            E4 = e6.Exec(c, fn2)
+            l4 = [p_ for p_ in E4.run_fn() if p_.exit is None or p_.exit[0] == "return"]
+            if len(l4) == 1 and not l4[0].pc:
+                v4 = l4[0].val if l4[0].exit is None else l4[0].exit[1]
+                rn = e6.range_nest(E4, e6.strip_upd(v4))
+                K = ("p", kp[0])
+                LENOF = lambda t_: ("call", "std::vec::Vec::<T, A>::len", (t_,))
+                Z = ("lit", "0")
+                ext = [LENOF(("idx", K, Z)), LENOF(K), LENOF(("idx", ("idx", K, Z), Z)), LENOF(("idx", ("idx", ("idx", K, Z), Z), Z))]   # C, F, H, W
+                if rn is not None and len(rn[0]) == 4 and not rn[2] and [e6.lin(d_) for d_ in rn[0]] == [e6.lin(x_) for x_ in ext]:
+                    leaf = e6.strip_upd(rn[1])
+                    idxs = []
+                    t_ = leaf
+                    while isinstance(t_, tuple) and t_ and (t_[0] == "idx" or (t_[0] == "un" and t_[1] == "Deref") or e6.is_call(t_, "clone", 1)):
+                        if t_[0] == "idx":
+                            idxs.append(t_[2])
+                            t_ = t_[1]
+                        else:
+                            t_ = t_[2] if t_[0] == "un" else e6.is_call(t_, "clone", 1)[0]
+                    idxs.reverse()
+                    want_ends = [ext[1], ext[0], ext[2], ext[3]]           # kernels[f][c][h][w]
+                    okl = t_ == K and len(idxs) == 4
+                    for ix, we in zip(idxs, want_ends):
+                        okl = okl and isinstance(ix, tuple) and ix[0] == "elem" and e6.range_of(ix[1]) is not None and e6.lin(e6.range_of(ix[1])[1]) == e6.lin(we)
+                    if okl:
+                        ok2 = True
+                        got = "value nest C x F x H x W of kernels[f][c][h][w]"
+        except Unestablished:
+            pass
     # one way through the function: the copy loop is what every call executes (a second, "special case" path would need its own proof)
     try:
         E3 = e6.Exec(c, fn2)
